@@ -115,7 +115,10 @@ Definition observe3 (a b c : caps) : val :=
        VLZ (cadd (csub a b) b); VLZ (csub a a);
        VOpt VB (positive_fields a (firstn 2 cap_fields));
        VOpt VB (positive_fields a (firstn 1 cap_fields ++ ["no_such_field"%string]));
-       VOpt VB (positive_fields a ("no_such_field"%string :: firstn 1 cap_fields)) ].
+       VOpt VB (positive_fields a ("no_such_field"%string :: firstn 1 cap_fields));
+       (* sums that stay negative: a negative result is a value like any other *)
+       VLZ (cadd (csub a b) (csub a b)); VLZ (cadd (csub a b) czero); VLZ (csub (csub a b) c);
+       VLZ (cadd czero (csub a b)) ].
 
 Definition check3 (x : (caps * caps * caps) * val) : bool :=
   let '((a, b, c), o) := x in val_eqb (observe3 a b c) o.
